@@ -104,3 +104,33 @@ Fixpoint discipline_from (fuel : nat) (stack : list (bkind * bool)) (out : list 
 
 Definition disciplineb (out : list N) : bool :=
   discipline_from (S (List.length out)) [] out.
+
+(** ** vocabulary of the indent invariant (C15_indent_invariant).
+    [stack_after stack s]: the bracket stack [nested_from] has reached after
+    reading [s] ([None] = mismatch); [nested_from stack s = true] iff
+    [stack_after stack s = Some []]. *)
+Fixpoint stack_after (stack : list bkind) (s : list N) : option (list bkind) :=
+  match s with
+  | [] => Some stack
+  | c :: s' =>
+      match opener c with
+      | Some k => stack_after (k :: stack) s'
+      | None =>
+          match closer c with
+          | Some k =>
+              match stack with
+              | k' :: st => if bkind_eqb k k' then stack_after st s' else None
+              | [] => None
+              end
+          | None => stack_after stack s'
+          end
+      end
+  end.
+
+(** number of open scopes of kind [k] in a bracket stack *)
+Definition count_kind (k : bkind) (bs : list bkind) : nat :=
+  List.length (filter (bkind_eqb k) bs).
+
+(** number of [Big] entries of one of the formatter's two scope stacks *)
+Definition is_big (x : scope) : bool := match x with Big => true | Small => false end.
+Definition count_big (l : list scope) : nat := List.length (filter is_big l).
